@@ -100,13 +100,13 @@ replace verif.local/simrt => %s/simrt
 	sum, _ := os.ReadFile(repo + "/go.sum")
 	os.WriteFile(d+"/h/go.sum", sum, 0o644)
 	b.worker = d + "/w.test"
-	if out, err := run(d+"/h", goEnv, "go1.26.8", "test", "-c", "-o", b.worker, "."); err != nil {
+	if out, err := run(d+"/h", goEnv, "go1.26.8", "test", "-trimpath", "-c", "-o", b.worker, "."); err != nil {
 		b.cleanup()
 		infra("worker build failed: %v\n%s", err, tail(out, 40))
 	}
 	if race {
 		b.race = d + "/wrace.test"
-		if out, err := run(d+"/h", goEnv, "go1.26.8", "test", "-race", "-c", "-o", b.race, "."); err != nil {
+		if out, err := run(d+"/h", goEnv, "go1.26.8", "test", "-trimpath", "-race", "-c", "-o", b.race, "."); err != nil {
 			b.cleanup()
 			infra("race worker build failed: %v\n%s", err, tail(out, 40))
 		}
